@@ -22,6 +22,7 @@ package tchannel
 
 import (
 	"fmt"
+	"io"
 	"time"
 
 	"github.com/uber/tchannel-go/typed"
@@ -258,17 +259,50 @@ func (response *OutboundCallResponse) Format() Format {
 // The ReadCloser must be closed once the argument has been read.
 func (response *OutboundCallResponse) Arg2Reader() (ArgReader, error) {
 	var method []byte
-	if err := NewArgReader(response.arg1Reader()).Read(&method); err != nil {
+	if err := NewArgReader(response.releaseOnErr(response.arg1Reader())).Read(&method); err != nil {
 		return nil, err
 	}
 
-	return response.arg2Reader()
+	return response.releaseOnErr(response.arg2Reader())
 }
 
 // Arg3Reader returns an ArgReader to read the last argument.
 // The ReadCloser must be closed once the argument has been read.
 func (response *OutboundCallResponse) Arg3Reader() (ArgReader, error) {
-	return response.arg3Reader()
+	return response.releaseOnErr(response.arg3Reader())
+}
+
+// releaseOnErr wraps an argument reader of the response so that an error found while
+// reading the argument (a malformed or unexpected fragment, e.g. a checksum mismatch in
+// a continuation frame) releases the call's message exchange, like every other reader
+// failure does. Otherwise the exchange stayed registered for the life of the connection
+// and kept the connection from ever closing gracefully.
+func (response *OutboundCallResponse) releaseOnErr(reader ArgReader, err error) (ArgReader, error) {
+	if err != nil {
+		return nil, err
+	}
+	return releaseOnErrReader{reader, response}, nil
+}
+
+type releaseOnErrReader struct {
+	ArgReader
+	response *OutboundCallResponse
+}
+
+func (r releaseOnErrReader) Read(b []byte) (int, error) {
+	n, err := r.ArgReader.Read(b)
+	if err != nil && err != io.EOF {
+		r.response.failed(err)
+	}
+	return n, err
+}
+
+func (r releaseOnErrReader) Close() error {
+	err := r.ArgReader.Close()
+	if err != nil {
+		r.response.failed(err)
+	}
+	return err
 }
 
 // handleError handles an error coming back from the peer. If the error is a
